@@ -159,7 +159,15 @@ func (k *Keeper) UpdateRateLimit(ctx sdk.Context, msg *types.MsgUpdateRateLimit)
 		Flow:  &flow,
 	})
 
-	return nil
+	// The flow was reset, so packets sent or received before the update no longer count
+	// towards it: drop their pending markers, exactly as ResetRateLimit does. Otherwise a
+	// later timeout or error acknowledgement of such a packet would be subtracted from the
+	// new flow.
+	if err := k.RemoveAllChannelPendingSendPackets(ctx, msg.ChannelOrClientId, msg.Denom); err != nil {
+		return err
+	}
+
+	return k.RemoveAllChannelPendingReceivePackets(ctx, msg.ChannelOrClientId, msg.Denom)
 }
 
 // Reset the rate limit after expiration
